@@ -225,6 +225,14 @@ class SummationGraderBase(AbstractGrader, MathMixin):
         # This is a simpler version of the raw_check function from FormulaGrader,
         # which is complicated by sibling variables and comparers
         
+        # Expressions in the author's answer that do not parse are the author's mistake,
+        # not the student's (they are parsed for the first time while generating samples)
+        try:
+            self.get_used_vars(list(answer.values()))
+        except MITxError as error:
+            msg = "There is a problem with the author's stored answer: {}"
+            raise ConfigError(msg.format(str(error)))
+
         # Generate samples
         var_samples, func_samples = self.gen_var_and_func_samples(answer, student_input)
         
